@@ -289,6 +289,17 @@ def _proto_job(arg):
     name, is_manager, budget, w, seed, n, chunk_mode, dseed = arg
     rng = np.random.RandomState(dseed)
     d = 1 + dseed % 3          # 1-3 features (code that counts array elements instead of instances shows with d > 1)
+    if chunk_mode < 0:
+        # C04: an object re-configured with set_params(budget=...) after n instances (chunk_mode = -chunk size);
+        # the new budget is budget / 8
+        if is_manager:
+            fac = sc.manager_factories()[name]
+            make_obj = lambda: fac(budget, w, seed)
+        else:
+            fac, _ = sc.strategy_factories()[name]
+            make_obj = lambda: fac(budget, seed)
+        return (sc.record_reconfigured(make_obj, is_manager, name, budget, budget / 8.0, n, 3 * n, -chunk_mode, d,
+                                       seed, "b%.3f-w%d-seed%d-n%d-c%d" % (budget, w, seed, n, -chunk_mode)),)
     clf, X, y = sc.make_clf(seed, d)
     if is_manager:
         fac = sc.manager_factories()[name]
@@ -374,6 +385,15 @@ def proto_jobs(pid, quick, rng):
                      "RandomVariableUncertaintyBudgetManager", "RandomBudgetManager", "SplitBudgetManager"):
             for w, b, k, n in big:
                 jobs.append((name, True, b, w, int(rng.integers(0, 100)), n, 100 + k, int(rng.integers(0, 10 ** 6))))
+        # objects that are re-configured while in use: set_params(budget=budget / 8) after the first part of a
+        # greedy stream (a budget resolved once and never again keeps granting at the old rate)
+        for name, is_mgr in (("FixedUncertaintyBudgetManager", True), ("VariableUncertaintyBudgetManager", True),
+                             ("RandomVariableUncertaintyBudgetManager", True), ("RandomBudgetManager", True),
+                             ("SplitBudgetManager", True), ("DensityBasedSplitBudgetManager", True),
+                             ("StreamRandomSampling", False), ("PeriodicSampling", False)):
+            for b, w, k, n in ([(0.5, 16, 7, 120)] if quick else [(0.5, 16, 7, 120), (0.8, 100, 1, 300),
+                                                                  (0.25, 8, 20, 200)]):
+                jobs.append((name, is_mgr, b, w, int(rng.integers(0, 100)), n, -k, int(rng.integers(0, 10 ** 6))))
         # long greedy streams for the managers / baselines that count labels without a window: the counters pass
         # 255 / 256 granted labels (a narrow counter wraps there and the manager forgets what it has spent)
         for name, is_mgr in (("DensityBasedSplitBudgetManager", True), ("StreamRandomSampling", False),
